@@ -48,6 +48,7 @@ def run_real(template, tmpl: dict, plan: list, handler_cfg) -> dict:
     except BaseException as e:      # noqa: BLE001 - this is the observation
         res["raise"] = [type(e).__name__, e]
     res["history"] = list(probe.history)
+    res["tcalls"] = list(probe.tcalls)
     res["handler"] = list(handler.calls) if handler else []
     res["raised"] = list(probe.raised)
     res["err_records"] = err_records
